@@ -53,11 +53,11 @@ def _cid_rows(spec):
     if spec.get("header"):
         rows.append(["d", "header", str(spec["header"])])
     if fmt == "fixed":
-        rows.append(["d", "line delimiter", "lf"])
+        rows.append(["d", "line delimiter", spec.get("line_delimiter", "lf")])
         rows.append(["f", "id", "", "", "1", "Integer", "0%s9" % sep])
         rows.append(["f", "name", "", "", "2", "Text", ""])
     else:
-        rows.append(["d", "line delimiter", "lf"])
+        rows.append(["d", "line delimiter", spec.get("line_delimiter", "lf")])
         rows.append(["d", "encoding", "utf-8"])
         rows.append(["f", "id", "", "", "", "Integer", "0%s9" % sep])
         rows.append(["f", "name", "", "", "1%s2" % sep, "Text", ""])
@@ -77,7 +77,8 @@ def generate(seed, tier):
         checks.append(["dc", "DistinctCount", "name %s %d" % (swarm.choice(["<=", "<", "==", ">=", "!="]), swarm.randint(1, 3))])
     if swarm.random() < 0.2:
         checks.reverse()
-    spec = {"format": fmt, "header": swarm.choice([0, 0, 1]), "sep": swarm.choice(SEPS), "checks": checks}
+    spec = {"format": fmt, "header": swarm.choice([0, 0, 1]), "sep": swarm.choice(SEPS), "checks": checks,
+            "line_delimiter": swarm.choice(["lf", "lf", "any", "any", "crlf"])}
     datasets = {}
     for name in "ABC"[: swarm.randint(1, 3)]:
         table = []
@@ -108,7 +109,9 @@ def generate(seed, tier):
         else:
             ops.append({"op": "write", "data": data, "close": rng.choice([True, True, True, False, "late"]),
                         "target": rng.choice(["path", "stream"])})
-    return {"io": simfs.IoConfig.draw(swarm), "cid": spec, "datasets": datasets, "ops": ops}
+    # under 'any' every stored data set may use its own line ending
+    eols = {name: swarm.choice(["\n", "\r\n", "\r"]) for name in names}
+    return {"io": simfs.IoConfig.draw(swarm), "cid": spec, "datasets": datasets, "ops": ops, "eols": eols}
 
 
 # ---- bounded sweep: every history of up to 4 runs over a fixed pool of run kinds -----------------------
@@ -154,10 +157,12 @@ def sweep_slice(tier, start, count):
                "datasets": {"A": [["1", "a"], ["2", "b"]], "B": [["1", "a"], ["1", "c"], ["3", "b"]]}, "ops": ops}
 
 
-def _data_bytes(spec, table):
+def _data_bytes(spec, table, eol="\n"):
+    delimiter = spec.get("line_delimiter", "lf")
+    eol = {"lf": "\n", "crlf": "\r\n"}.get(delimiter, eol)
     if spec["format"] == "fixed":
-        return lib.render_fixed(table, [1, 2], "\n").encode("utf-8")
-    return lib.render_delimited(table, ",", '"', "\n").encode("utf-8")
+        return lib.render_fixed(table, [1, 2], eol).encode("utf-8")
+    return lib.render_delimited(table, ",", '"', eol).encode("utf-8")
 
 
 class _World(object):
@@ -165,7 +170,7 @@ class _World(object):
         self.scenario = scenario
         self.fs = simfs.SimFS(simfs.IoConfig.from_dict(scenario["io"]))
         for name, table in scenario["datasets"].items():
-            self.fs.store(name + ".txt", _data_bytes(scenario["cid"], table))
+            self.fs.store(name + ".txt", _data_bytes(scenario["cid"], table, (scenario.get("eols") or {}).get(name, "\n")))
         self.keep = []  # never-closed runs stay referenced until the world ends
         self.cid = None
 
@@ -376,6 +381,8 @@ def candidates(scenario):
         yield lib.with_value(scenario, ["cid", "header"], 0)
     if scenario["cid"].get("sep") != ":":
         yield lib.with_value(scenario, ["cid", "sep"], ":")
+    if scenario["cid"].get("line_delimiter", "lf") != "lf":
+        yield lib.with_value(scenario, ["cid", "line_delimiter"], "lf")
     if scenario["cid"]["format"] != "delimited":
         yield lib.with_value(scenario, ["cid", "format"], "delimited")
     for index, op in enumerate(scenario["ops"]):
